@@ -235,8 +235,8 @@ func c19HTTPShapes() *explore.Scenario {
 			if len(conns) != 0 {
 				vsched.Fail(fam+"|bad-request-delivered", "malformed requests created %d connections", len(conns))
 			}
-			// valid envelopes are delivered, equal and in order
-			vals := c19Values(false)
+			// valid envelopes are delivered, equal and in order (bodies up to 1 MiB)
+			vals := c19Values(true)
 			var want []*env.Rpc
 			for _, v := range vals {
 				if v.Header != nil && v.Header.Source != "" {
